@@ -66,3 +66,108 @@ class TasksEngine(Engine):
             args, kwargs = self.eval_args(e, cx)
             return self.call_contract(ov, [recv] + args, kwargs, cx, e, arg_nodes=[recv_node] + list(e.args))
         return super().call_method(recv, name, e, cx, recv_node)
+
+
+# ---- generated-source functions (mk_fun): keyword dictionaries, f-strings and joins as uninterpreted terms -----------------
+kw_key = z3.Function("kwargs_key_at", V, IntS, V)
+kw_val = z3.Function("kwargs_value_at", V, IntS, V)
+kw_n = z3.Function("kwargs_len", V, IntS)
+str_join = z3.Function("str_join", V, IntS, z3.ArraySort(IntS, V), V)       # separator, number of parts, parts -> text
+keys_join = z3.Function("str_join_keys", V, V, V)                           # separator, kwargs -> text
+_FSTR = {}
+
+
+def fstring_fn(template, arity):
+    key = (template, arity)
+    if key not in _FSTR:
+        _FSTR[key] = z3.Function(f"fstring[{template}]", *([V] * arity + [V]))
+    return _FSTR[key]
+
+
+class TKwargsCls(Ty):
+    def sort(self):
+        return V
+
+    def wrap(self, term):
+        return PyKwargs(term)
+
+
+class PyKwargs(Val):
+    """**kwargs: an insertion-ordered dict; keys(), values() and items() enumerate the SAME order"""
+    ty = TKwargsCls()
+
+    def __init__(self, term):
+        self.t = term
+        self.axioms = [kw_n(term) >= 0]
+
+    def same(self, other):
+        return self.t == other.t
+
+    def ident(self, other):
+        return isinstance(other, PyKwargs) and self.t.eq(other.t)
+
+    def _enum(self, what):
+        t = self.t
+        if what == "keys":
+            en = PyEnum(kw_n(t), lambda j: kw_key(t, j), TV, axioms=[kw_n(t) >= 0])
+        elif what == "values":
+            en = PyEnum(kw_n(t), lambda j: kw_val(t, j), TV, axioms=[kw_n(t) >= 0])
+        else:
+            en = PyEnum(kw_n(t), lambda j: j, TInt, axioms=[kw_n(t) >= 0])
+            en.kwitems = t
+        en.kwargs = t
+        return en
+
+    def m_keys(self, cx):
+        return self._enum("keys"), None
+
+    def m_values(self, cx):
+        return self._enum("values"), None
+
+    def m_items(self, cx):
+        return self._enum("items"), None
+
+
+TKwargs = TKwargsCls()
+
+
+class SourceGenEngine(TasksEngine):
+    def eval_JoinedStr(self, e, cx):
+        parts, tpl = [], []
+        for v in e.values:
+            if isinstance(v, ast.FormattedValue):
+                val = self.eval(v.value, cx)
+                if not isinstance(val, PyObj):
+                    raise Unsupported("f-string part " + type(val).__name__)
+                parts.append(val.t)
+                tpl.append("{" + {-1: "", 115: "!s", 114: "!r", 97: "!a"}[v.conversion] + "}")
+            else:
+                tpl.append(v.value)
+        return PyObj(fstring_fn("".join(tpl), len(parts))(*parts))
+
+    def loop_elem(self, it, k, s):
+        if getattr(it, "kwitems", None) is not None:
+            return PyTuple([PyObj(kw_key(it.kwitems, k)), PyObj(kw_val(it.kwitems, k))])
+        return super().loop_elem(it, k, s)
+
+    def unpack(self, v, n, cx):
+        if isinstance(v, PyTuple):
+            return Engine.unpack(self, v, n, cx)
+        return super().unpack(v, n, cx)
+
+    def eval_Constant(self, e, cx):
+        if isinstance(e.value, str):
+            return PyStr(e.value)
+        return super().eval_Constant(e, cx)
+
+    def call_method(self, recv, name, e, cx, recv_node):
+        if isinstance(recv, PyStr) and name == "join" and len(e.args) == 1:
+            arg = self.eval(e.args[0], cx)
+            sep = z3.Const("str:" + repr(recv.s), V)
+            if isinstance(arg, PySeq):
+                cx.st.env["@joined_lines"] = arg
+                return PyObj(str_join(sep, arg.n, arg.arr))
+            if isinstance(arg, PyEnum) and getattr(arg, "kwargs", None) is not None:
+                return PyObj(keys_join(sep, arg.kwargs))
+            raise Unsupported("join of " + type(arg).__name__)
+        return super().call_method(recv, name, e, cx, recv_node)
